@@ -126,6 +126,7 @@ type invokerScript struct {
 const (
 	famMixed    = 0 // the general family (genScenario)
 	famLastDone = 1 // the last prioritized task ends while many invokers arrive (genLastDone)
+	famBegin    = 2 // prioritized tasks begin back to back while many bodies (re)start (genBegin)
 )
 
 type scenario struct {
@@ -135,6 +136,17 @@ type scenario struct {
 	// (roundWG[r-1]), so a later round can never rescue an invoker that got stuck in an earlier one.
 	barrier []chan struct{}
 	roundWG []sync.WaitGroup
+
+	// Boundary knowledge of the harness: number of prioritized tasks whose DoPrioritizedTask has
+	// RETURNED and whose DonePrioritizedTask has not been CALLED yet. Bumped by the prioritized
+	// clients only; bodies only load it (edges into the body, never out of it).
+	active atomic.Int64
+	// famBegin: bodies that are owed a cancellation register here and the prioritized clients
+	// begin no further task while one exists (nothing but the begin that already happened may be
+	// the reason for a cancellation). Plain-build stage only: a lock on the body's path.
+	gate        *sync.Cond
+	suspects    int
+	clientsLeft atomic.Int32
 	idx      int
 	conc     int
 	silence  time.Duration
@@ -157,11 +169,11 @@ func main() {
 			"was executed again (>=2 executions of one invocation) and every invocation completed; distinct by the scenario script. "+
 			"Second family (lastdone): silence 0-1ms, one prioritized burst whose Done lands while 8-32 invokers enter InvokeBackgroundTask within microseconds, nothing later; "+
 			"non-trivial = invocations were entered on both sides of the announcement of the last decrement. Both families must reach their own floor",
-		700, 13000, body)
+		635, 13805, body)
 }
 
 // floors of the two families (quick, thorough)
-func floors(r *vf.Run) (int, int) { return r.N(200, 5000), r.N(500, 8000) }
+func floors(r *vf.Run) (int, int, int) { return r.N(200, 5000), r.N(400, 8000), r.N(30, 800) }
 
 func body(r *vf.Run) {
 	verifhook.SetHandler(hookHandler)
@@ -171,17 +183,41 @@ func body(r *vf.Run) {
 		pprof.StartCPUProfile(f)
 		defer pprof.StopCPUProfile()
 	}
-	if r.Child == "lastdone" {
-		lastDoneStage(r)
+	if r.Child == "plain" {
+		plainStage(r)
 		return
 	}
-	f1, f2 := floors(r)
+	if r.Child == "callers" {
+		callersStage(r)
+		return
+	}
+	f1, f2, f3 := floors(r)
+	f4 := 5
+	// Stage "callers" (real callers of the manager, balance invariant) mostly waits for the
+	// callers' 5 s silence periods: it runs next to the mixed family.
+	only0 := os.Getenv("VERIF_C13_FAMILY")
+	n4 := -1
+	var cwg sync.WaitGroup
+	if only0 == "" || only0 == "callers" {
+		cwg.Add(1)
+		go func() {
+			defer cwg.Done()
+			cf := filepath.Join(r.Scratch, "callers.count")
+			ex := r.RunChild(vf.ChildSpec{Stage: "callers", Race: false, Timeout: time.Duration(r.N(8, 30)) * time.Minute, Env: []string{"C13_COUNT_FILE=" + cf}})
+			if b, err := os.ReadFile(cf); err == nil && ex.Partial {
+				fmt.Sscanf(string(b), "%d", &n4)
+			} else {
+				r.Inconclusive("callers child stage did not deliver a result (exit " + fmt.Sprint(ex.ExitCode) + " " + ex.Signal + ")")
+				r.Logf("callers child failed: %s", ex.Tail)
+			}
+		}()
+	}
 	n := r.N(1200, 30000)
 	group := r.N(6, 8)
 	stuck := false
 	// debugging aid only (measuring one family's detection power): VERIF_C13_FAMILY=lastdone|mixed
 	only := os.Getenv("VERIF_C13_FAMILY")
-	if only == "lastdone" {
+	if only == "lastdone" || only == "beginrace" || only == "callers" {
 		n = 0
 	}
 	for base := 0; base < n; base += group {
@@ -194,34 +230,39 @@ func body(r *vf.Run) {
 			break // a stuck group leaves goroutines behind: later dumps would be polluted
 		}
 	}
-	// Family 2 (lastdone) runs as a child stage in the PLAIN build: it looks for a lost wake-up,
-	// not for a race, and under tsan every goroutine start costs ~100us (history_size=5), which
-	// would allow only a few thousand trials per minute instead of tens of thousands.
-	n2 := -1
-	if !stuck && only != "mixed" {
-		cf := filepath.Join(r.Scratch, "lastdone.count")
-		ex := r.RunChild(vf.ChildSpec{Stage: "lastdone", Race: false, Timeout: time.Duration(r.N(6, 30)) * time.Minute, Env: []string{"C13_COUNT_FILE=" + cf}})
+	// Families 2 (lastdone) and 3 (beginrace) run as a child stage in the PLAIN build: they look
+	// for a lost wake-up / a missed cancellation, not for a race, and under tsan every goroutine
+	// start costs ~100us (history_size=5), which would allow only a few thousand trials per
+	// minute instead of tens of thousands.
+	n2, n3 := -1, -1
+	if !stuck && only != "mixed" && only != "callers" {
+		cf := filepath.Join(r.Scratch, "plain.count")
+		ex := r.RunChild(vf.ChildSpec{Stage: "plain", Race: false, Timeout: time.Duration(r.N(8, 40)) * time.Minute, Env: []string{"C13_COUNT_FILE=" + cf}})
 		if b, err := os.ReadFile(cf); err == nil && ex.Partial {
-			fmt.Sscanf(string(b), "%d", &n2)
+			fmt.Sscanf(string(b), "%d %d", &n2, &n3)
 		} else {
-			r.Inconclusive("lastdone child stage did not deliver a result (exit " + fmt.Sprint(ex.ExitCode) + " " + ex.Signal + ")")
-			r.Logf("lastdone child failed: %s", ex.Tail)
+			r.Inconclusive("plain child stage did not deliver a result (exit " + fmt.Sprint(ex.ExitCode) + " " + ex.Signal + ")")
+			r.Logf("plain child failed: %s", ex.Tail)
 		}
 	}
-	// Each family has its own floor but vf knows only one number (f1+f2). The child hands over at
-	// most f2 of its non-trivial cases, the parent hands over its own only if BOTH families
-	// reached their floor: so the sum reaches f1+f2 iff both did (real numbers: see the keys below).
+	// Each family has its own floor but vf knows only one number (f1+f2+f3). The child hands over
+	// at most f2 resp. f3 of its non-trivial cases, the parent hands over its own only if ALL
+	// families reached their floor: so the sum reaches the vf floor iff all did (real numbers:
+	// see the keys below).
+	cwg.Wait()
+	r.Set("nontrivial_callers_stage", n4)
 	r.Set("nontrivial_mixed_family", len(ntMixed))
 	r.Set("nontrivial_lastdone_family", n2)
-	r.Set("family_floors", map[string]int{"mixed": f1, "lastdone": f2})
+	r.Set("nontrivial_beginrace_family", n3)
+	r.Set("family_floors", map[string]int{"mixed": f1, "lastdone": f2, "beginrace": f3, "callers": f4})
 	if only != "" {
-		r.Inconclusive("VERIF_C13_FAMILY is set: only one family was run")
-	} else if len(ntMixed) >= f1 && n2 >= f2 {
+		r.Inconclusive("VERIF_C13_FAMILY is set: not every family was run")
+	} else if len(ntMixed) >= f1 && n2 >= f2 && n3 >= f3 && n4 >= f4 {
 		for _, d := range ntMixed {
 			r.NonTrivial(d)
 		}
 	} else if !stuck && r.Violations() == 0 {
-		r.Inconclusive(fmt.Sprintf("a scenario family stayed below its floor (mixed %d/%d, lastdone %d/%d)", len(ntMixed), f1, n2, f2))
+		r.Inconclusive(fmt.Sprintf("a scenario family stayed below its floor (mixed %d/%d, lastdone %d/%d, beginrace %d/%d, callers %d/%d)", len(ntMixed), f1, n2, f2, n3, f3, n4, f4))
 	}
 	r.AccountOwnRaces([]string{"task."}, nil)
 	r.Assume("CLOCK_MONOTONIC (time.Since) is consistent across CPUs: stamps taken inside an interval on different goroutines order real events")
@@ -230,23 +271,39 @@ func body(r *vf.Run) {
 	r.Assume("hook points of task/task.go are where MANIFEST.hooks says: pbegin/start inside prioritizedTaskStartNotifyMu, pend before the atomic decrement")
 }
 
-// lastDoneStage (child, plain build): thousands of tiny scenarios around ONE instant — the
-// decrement+broadcast of the last prioritized task of a round while 8-32 invokers enter
-// InvokeBackgroundTask, nothing afterwards that could rescue an invoker whose wake-up got
-// lost. Judged by the same state-based quiescence decision
-// (completion:invocation-pending-at-quiescence); all other clauses are evaluated as well.
-func lastDoneStage(r *vf.Run) {
-	_, f2 := floors(r)
-	n2 := r.N(2000, 30000)
-	group2 := 4
-	for base := 0; base < n2; base += group2 {
+// plainStage (child, plain build).
+//
+// lastdone: thousands of tiny rounds around ONE instant — the decrement+broadcast of the last
+// prioritized task of a round while 8-32 invokers enter InvokeBackgroundTask, nothing afterwards
+// that could rescue an invoker whose wake-up got lost (completion:invocation-pending-at-quiescence).
+// beginrace: prioritized tasks begin back to back while 16-64 invokers (re)start bodies; a body
+// running while a task is in progress must get cancelled (cancel:never-delivered-to-running-body).
+// Both are judged by the state-based quiescence decision; all other clauses are evaluated as well.
+func plainStage(r *vf.Run) {
+	_, f2, f3 := floors(r)
+	only := os.Getenv("VERIF_C13_FAMILY")
+	stuck := false
+	n2 := r.N(1500, 30000)
+	if only == "beginrace" {
+		n2 = 0
+	}
+	for base := 0; base < n2 && !stuck; base += 4 {
 		var scs []*scenario
-		for i := base; i < base+group2 && i < n2; i++ {
+		for i := base; i < base+4 && i < n2; i++ {
 			scs = append(scs, genLastDone(r.RNG(7, uint64(i)), lastDoneBase+i))
 		}
-		if !runGroup(r, scs) {
-			break
+		stuck = !runGroup(r, scs)
+	}
+	n3 := r.N(100, 3000)
+	if only == "lastdone" {
+		n3 = 0
+	}
+	for base := 0; base < n3 && !stuck; base += 2 {
+		var scs []*scenario
+		for i := base; i < base+2 && i < n3; i++ {
+			scs = append(scs, genBegin(r.RNG(8, uint64(i)), beginBase+i))
 		}
+		stuck = !runGroup(r, scs)
 	}
 	for i, d := range ntLastDone {
 		if i >= f2 {
@@ -254,15 +311,53 @@ func lastDoneStage(r *vf.Run) {
 		}
 		r.NonTrivial(d)
 	}
+	for i, d := range ntBegin {
+		if i >= f3 {
+			break
+		}
+		r.NonTrivial(d)
+	}
 	if cf := os.Getenv("C13_COUNT_FILE"); cf != "" {
-		_ = os.WriteFile(cf, []byte(fmt.Sprint(len(ntLastDone))), 0o644)
+		_ = os.WriteFile(cf, []byte(fmt.Sprintf("%d %d", len(ntLastDone), len(ntBegin))), 0o644)
 	}
 }
 
 const lastDoneBase = 10000000 // case numbers of the second family
+const beginBase = 20000000    // case numbers of the third family
+
+// genBegin: 16-64 invokers invoke short probe bodies all the time (concurrency = number of
+// invokers, silence 0-50us) while one prioritized client runs 30-60 tasks of 100-400us back to
+// back (gap 0-300us). A body that finds itself running while a task is in progress (by the
+// harness's boundary events) waits for its ctx to be cancelled; while such a body exists no
+// further task is begun. Decided at quiescence on state (cancel:never-delivered-to-running-body).
+func genBegin(rng *prng.R, idx int) *scenario {
+	sc := &scenario{family: famBegin, idx: idx, release: make(chan struct{}), gate: sync.NewCond(&sync.Mutex{})}
+	w := rng.Pick(16, 32, 64)
+	sc.conc = rng.Pick(w, w, w/2)
+	sc.silence = time.Duration(rng.Pick(0, 0, 0, 20, 50)) * time.Microsecond
+	ntask := rng.Range(30, 60)
+	pc := &prioClient{}
+	for t := 0; t < ntask; t++ {
+		pc.bursts = append(pc.bursts, burst{Before: time.Duration(rng.Range(0, 300)) * time.Microsecond, N: 1, Hold: time.Duration(rng.Range(100, 400)) * time.Microsecond})
+	}
+	sc.clients = []*prioClient{pc}
+	linger := time.Duration(rng.Range(50, 300)) * time.Microsecond
+	id := 0
+	for i := 0; i < w; i++ {
+		is := &invokerScript{}
+		for j := 0; j < 80; j++ {
+			is.invs = append(is.invs, &invocation{sc: sc, id: id, timeout: longTO, scripts: []execScript{{Kind: kProbe, Dur: linger}}, slots: make([]slot, 6)})
+			id++
+		}
+		sc.invokers = append(sc.invokers, is)
+	}
+	sc.desc = fmt.Sprintf("beginrace invokers=%d conc=%d silence=%s tasks=%d linger=%s first-gaps=%s,%s,%s holds=%s,%s,%s", w, sc.conc, sc.silence, ntask, linger,
+		pc.bursts[0].Before, pc.bursts[1].Before, pc.bursts[2].Before, pc.bursts[0].Hold, pc.bursts[1].Hold, pc.bursts[2].Hold)
+	return sc
+}
 
 // non-trivial scenario descriptors per family (appended by analyze on the driver goroutine only)
-var ntMixed, ntLastDone []string
+var ntMixed, ntLastDone, ntBegin []string
 
 // genLastDone: silence 0-1ms; 4-8 rounds, each: one prioritized burst (1-3 nested begins) whose
 // Done calls land while 8-32 invokers call InvokeBackgroundTask within a few (hundred)
@@ -443,9 +538,17 @@ func (inv *invocation) readAt(p []int64) (retN int64, retErr error) {
 			t := now()
 			switch es.Kind {
 			case kProbe:
-				if sc.mon.pbeginA.Load() != p0 {
-					// a prioritized task began after this body started: its ctx must get cancelled
+				if sc.mon.pbeginA.Load() != p0 || sc.active.Load() > 0 {
+					// a prioritized task began after this body started (task.pbegin seen), or one is
+					// in progress right now by the harness's own boundary events (Do returned, Done
+					// not called): this body is running while a prioritized task is in progress, so
+					// its ctx must get cancelled — whenever its start was decided.
 					sl.noticed.Store(true)
+					if sc.gate != nil {
+						sc.gate.L.Lock()
+						sc.suspects++
+						sc.gate.L.Unlock()
+					}
 					sl.state.Store(2)
 					select {
 					case <-ctx.Done():
@@ -453,6 +556,12 @@ func (inv *invocation) readAt(p []int64) (retN int64, retErr error) {
 						sl.relby.Store(true)
 					}
 					sl.state.Store(1)
+					if sc.gate != nil {
+						sc.gate.L.Lock()
+						sc.suspects--
+						sc.gate.Broadcast()
+						sc.gate.L.Unlock()
+					}
 					if es.Lag > 0 {
 						time.Sleep(es.Lag)
 					}
@@ -501,6 +610,9 @@ func (sc *scenario) invoker(is *invokerScript) {
 	defer invokers.Delete(id)
 	time.Sleep(is.delay)
 	for r, inv := range is.invs {
+		if sc.family == famBegin && sc.clientsLeft.Load() == 0 {
+			break // the prioritized clients are through: further invocations would observe nothing
+		}
 		if sc.barrier != nil {
 			<-sc.barrier[r]
 			spinFor(inv.pre)
@@ -525,14 +637,23 @@ func (sc *scenario) invoker(is *invokerScript) {
 }
 
 func (sc *scenario) prioClient(pc *prioClient) {
+	defer sc.clientsLeft.Add(-1)
 	for r, b := range pc.bursts {
 		if sc.barrier != nil && r > 0 {
 			sc.roundWG[r-1].Wait() // every invocation of the previous round has returned
 		}
 		time.Sleep(b.Before)
+		if sc.gate != nil {
+			sc.gate.L.Lock()
+			for sc.suspects > 0 {
+				sc.gate.Wait() // parked: a body is owed a cancellation for a begin that already happened
+			}
+			sc.gate.L.Unlock()
+		}
 		for i := 0; i < b.N; i++ {
 			sc.mgr.DoPrioritizedTask()
 			pc.after = append(pc.after, now())
+			sc.active.Add(1) // boundary: from here on this task is in progress
 		}
 		if sc.barrier != nil {
 			// the client itself (a workload goroutine for the quiescence snapshot) opens the
@@ -542,6 +663,7 @@ func (sc *scenario) prioClient(pc *prioClient) {
 		}
 		time.Sleep(b.Hold)
 		for i := 0; i < b.N; i++ {
+			sc.active.Add(-1)                  // boundary: before the Done call
 			pc.doneT = append(pc.doneT, now()) // BEFORE the call: load can only lengthen the gap to a start
 			sc.doneCalls.Add(1)
 			sc.mgr.DonePrioritizedTask()
@@ -554,6 +676,7 @@ func (sc *scenario) prioClient(pc *prioClient) {
 func (sc *scenario) run() {
 	sc.mgr = task.NewBackgroundTaskManager(int64(sc.conc), sc.silence)
 	sc.mon = &mgrMon{sc: sc}
+	sc.clientsLeft.Store(int32(len(sc.clients)))
 	mons.Store(sc.mgr, sc.mon)
 	var wg sync.WaitGroup
 	for _, is := range sc.invokers {
